@@ -20,3 +20,13 @@ Definition check_transcribe_src (c : string * string) : bool :=
   | Ok t => sch_eqb_list t (sch_of_string text)
   | Err _ => false
   end.
+
+(* find_resistance as regenerated, against what the implementation reports for the same /label
+   qualifiers (None: it raised RuntimeError) *)
+Definition check_resistance_src (c : list (option (list string)) * option string) : bool :=
+  let '(feats, res) := c in
+  match find_resistance_src (LR "r" (map LF feats)), res with
+  | Ok (Some a), Some b => String.eqb a b
+  | Err XRuntimeError, None => true
+  | _, _ => false
+  end.
